@@ -461,11 +461,22 @@ def emit_rust(shapes):
         ss = 'Some(<%s as FlatSized>::SIZE)' % rt if is_sized(t) else 'None'
         d = 'Some(<%s>::default_in_place(b).map(|_| ()))' % rt if has_default(t) else 'None'
         wd = 'Some(::flatty::FlatWrap::<%s, &mut [u8]>::default_in_place(b).map(|_| ()))' % rt if has_default(t) else 'None'
+        sd = 'Ok(g.default_in_place())' if has_default(t) else 'Err(g)'
         out.append(f'''
 impl Probe for {rt} {{
     const STATIC_SIZE: Option<usize> = {ss};
     fn dflt(b: &mut [u8]) -> Option<Result<(), Error>> {{ let _ = &b; {d} }}
     fn wrap_dflt(b: &mut [u8]) -> Option<Result<(), Error>> {{ let _ = &b; {wd} }}
+    fn send_dflt_b<'a, B: flatty_io::blocking::WriteBuffer + 'a>(
+        g: flatty_io::blocking::UninitSendGuard<'a, Self, B>,
+    ) -> Result<Result<flatty_io::blocking::SendGuard<'a, Self, B>, Error>, flatty_io::blocking::UninitSendGuard<'a, Self, B>> {{
+        {sd}
+    }}
+    fn send_dflt_a<'a, B: flatty_io::async_::AsyncWriteBuffer + 'a>(
+        g: flatty_io::async_::UninitSendGuard<'a, Self, B>,
+    ) -> Result<Result<flatty_io::async_::SendGuard<'a, Self, B>, Error>, flatty_io::async_::UninitSendGuard<'a, Self, B>> {{
+        {sd}
+    }}
 }}
 ''')
     out.append('pub const SHAPES: &[&str] = &[\n' + ''.join('    "%s %s",\n' % (sid, sexp(t)) for sid, t, _ in tops) + '];\n')
